@@ -9,13 +9,13 @@ type mapSliceValue struct {
 	valueEmbed
 }
 
-// func (v mapSliceValue) Equal(o Value) bool     { return v.slice == o.Interface() }
-func (v mapSliceValue) Interface() any { return v.slice }
+func (v mapSliceValue) Equal(o Value) bool { return Equal(v.slice, o.Interface()) }
+func (v mapSliceValue) Interface() any     { return v.slice }
 
 func (v mapSliceValue) Contains(elem Value) bool {
 	e := elem.Interface()
 	for _, item := range v.slice {
-		if e == item.Key {
+		if safeEqual(e, item.Key) {
 			return true
 		}
 	}
@@ -25,7 +25,7 @@ func (v mapSliceValue) Contains(elem Value) bool {
 func (v mapSliceValue) IndexValue(index Value) Value {
 	e := index.Interface()
 	for _, item := range v.slice {
-		if e == item.Key {
+		if safeEqual(e, item.Key) {
 			return ValueOf(item.Value)
 		}
 	}
